@@ -123,6 +123,36 @@ def _register():
     REG[MT_ACK] = (0, None)  # ACK frames are only ever scripted with version 0
 
 
+EDITIONS = {"longer": 104, "same-size": 8}
+CURRENT: Dict[int, type] = {}  # type id -> class of the edition in force, where it is not the original one
+
+
+def register_edition(mt: int, edition: str) -> Tuple[int, int]:
+    """Register ANOTHER definition for type id `mt` (as importing a regenerated definitions module does): a different size
+    ("longer") or the same size with another version hash ("same-size").  Returns (size, hash) of the definition now in force."""
+    size = EDITIONS[edition]
+    h = (type_hash_of(mt) ^ 0x00A5A500) & 0xFFFFFFFF
+    ns = dict(type_id=mt, type_name=f"ENGD_{mt}", type_size=size, type_source="", type_def="", type_hash=h)
+    if size == 8:
+        ns["val"] = Double()
+    else:
+        ns["str"] = ByteArray(64)
+        ns["val"] = Double()
+        ns["arr"] = IntArray(Int32, 8)
+    cls = MessageMeta(f"ENGD_{mt}_{edition.replace('-', '_')}", (pyrtma.MessageData,), ns)
+    message_def(cls)
+    REG[mt] = (size, h)
+    CURRENT[mt] = cls
+    return size, h
+
+
+def restore_edition(mt: int):
+    """Back to the original definition of Engine D for `mt`."""
+    message_def(CLS[mt])
+    REG[mt] = (SIZES[mt], type_hash_of(mt))
+    CURRENT.pop(mt, None)
+
+
 _register()
 
 # ------------------------------------------------------------------------------------------------
